@@ -547,7 +547,7 @@ def _lower_combinator(F, f, raw, blk, t):
         # `.map(Type::constructor)`: a function of this crate passed by name
         g = F.fns.get(t["args"][1]["fn"]) or next((h for h in F.fns.values() if strip_generics(h.path) == strip_generics(t["args"][1]["fn"])), None)
         fn_item = g is not None
-    if g is None or g.path in inventory() or strip_generics(g.path) in inventory():
+    if g is None or ((g.path in inventory() or strip_generics(g.path) in inventory()) and not colliding_closure(F, g)):
         return False
     x = t["args"][0]
     if x["k"] == "c" or x["pl"].get("p"):
@@ -649,6 +649,22 @@ def reference_calls(config, path):
     return set(e["calls"]) if e else set()
 
 
+def colliding_closure(F, g):
+    """closures are numbered, not named: `f::{closure#0}` of today's tree may be another closure than the reference's `f::{closure#0}` (one was added in front of it,
+    or it replaced it).  True when g is a closure whose path is in the inventory but whose return and parameter types are not those the reference closure had:
+    a new helper that happens to carry an old number, to be looked through like any other."""
+    if g.kind != "Closure":
+        return False
+    global _REF_CALLS
+    reference_calls(getattr(F, "config", None), g.path)      # loads the table
+    ref = (_REF_CALLS.get(getattr(F, "config", None)) or {}).get("fns", {}).get(g.path)
+    if not ref:
+        return False
+    mask = lambda ts: [re.sub(r"\{closure@[^}]*\}", "{closure}", t_) for t_ in ts]
+    cur = mask([l["t"] for l in g.raw["locals"][:g.raw["argc"] + 1]])
+    return cur != mask(ref.get("sig", []))
+
+
 def anchor_comes_home(F, f, g):
     """g is a new helper around a packet system call, and f, which calls it, is a reference function that used to make that system call itself
     (`UnixCmsg::recv` with the recvmsg moved into a new `read_packet`): looking through g gives f its reference shape back"""
@@ -663,7 +679,7 @@ def anchor_comes_home(F, f, g):
 
 
 def inlinable(F, g):
-    if strip_generics(g.path) in inventory() or g.path in inventory():
+    if (strip_generics(g.path) in inventory() or g.path in inventory()) and not colliding_closure(F, g):
         return False
     if g.kind == "Closure":
         return True
